@@ -168,6 +168,13 @@ type c08Row struct {
 	Build func(t *rapid.T, side string) m.Packet
 }
 
+// c08Rep is the repetition index of the (row, side) pair being built: the "far beyond" probes
+// cycle through their candidate values (among them values congruent to a valid one modulo 256
+// or 65536, which a count kept in too few bits maps back into range) instead of drawing one.
+var c08Rep int
+
+func farOf(vs ...int) int { return vs[c08Rep%len(vs)] }
+
 func pick(side string, below, at, above, far int) int {
 	switch side {
 	case "below":
@@ -201,17 +208,17 @@ func c08Rows() []c08Row {
 	return []c08Row{
 		{"SR.reports<=31", true, func(t *rapid.T, s string) m.Packet {
 			p := gen.PacketOf(t, m.KSR)
-			p.SR.Reports = rblocksN(t, pick(s, 30, 31, 32, 100))
+			p.SR.Reports = rblocksN(t, pick(s, 30, 31, 32, farOf(100, 256, 261, 287)))
 			return p
 		}},
 		{"RR.reports<=31", true, func(t *rapid.T, s string) m.Packet {
 			p := gen.PacketOf(t, m.KRR)
-			p.RR.Reports = rblocksN(t, pick(s, 30, 31, 32, 257))
+			p.RR.Reports = rblocksN(t, pick(s, 30, 31, 32, farOf(63, 256, 257, 287)))
 			return p
 		}},
 		{"SDES.chunks<=31", true, func(t *rapid.T, s string) m.Packet {
 			p := gen.PacketOf(t, m.KSDES)
-			n := pick(s, 30, 31, 32, 256)
+			n := pick(s, 30, 31, 32, farOf(63, 256, 257, 287))
 			for len(p.SDES.Chunks) < n {
 				p.SDES.Chunks = append(p.SDES.Chunks, m.SDESChunk{Source: gen.U32(t, "src")})
 			}
@@ -220,7 +227,7 @@ func c08Rows() []c08Row {
 		}},
 		{"BYE.sources<=31", true, func(t *rapid.T, s string) m.Packet {
 			p := gen.PacketOf(t, m.KBYE)
-			n := pick(s, 30, 31, 32, 63)
+			n := pick(s, 30, 31, 32, farOf(63, 256, 257, 287))
 			p.BYE.Sources = make([]uint32, n)
 			for i := range p.BYE.Sources {
 				p.BYE.Sources[i] = gen.U32(t, "src")
@@ -239,12 +246,12 @@ func c08Rows() []c08Row {
 				p.SDES.Chunks[ci].Items = append(p.SDES.Chunks[ci].Items, gen.SDESItem(t, false))
 			}
 			ii := rapid.IntRange(0, len(p.SDES.Chunks[ci].Items)-1).Draw(t, "item")
-			p.SDES.Chunks[ci].Items[ii].Text = textN(t, pick(s, 254, 255, 256, 1000))
+			p.SDES.Chunks[ci].Items[ii].Text = textN(t, pick(s, 254, 255, 256, farOf(260, 511, 1000, 65539)))
 			return p
 		}},
 		{"BYE.reason<=255", true, func(t *rapid.T, s string) m.Packet {
 			p := gen.PacketOf(t, m.KBYE)
-			p.BYE.Reason = textN(t, pick(s, 254, 255, 256, 70000))
+			p.BYE.Reason = textN(t, pick(s, 254, 255, 256, farOf(260, 511, 65540, 70000)))
 			return p
 		}},
 		{"SR.TotalLost<2^24", true, func(t *rapid.T, s string) m.Packet {
@@ -253,7 +260,7 @@ func c08Rows() []c08Row {
 				p.SR.Reports = rblocksN(t, 1)
 			}
 			i := rapid.IntRange(0, len(p.SR.Reports)-1).Draw(t, "blk")
-			far := rapid.SampledFrom([]int{1<<25 - 1, 1 << 25, 1<<24 + 0x1234, math.MaxUint32}).Draw(t, "far")
+			far := farOf(1<<25-1, 1<<25, 1<<24+0x1234, math.MaxUint32)
 			p.SR.Reports[i].Lost = uint32(pick(s, 1<<24-2, 1<<24-1, 1<<24, far))
 			return p
 		}},
@@ -263,13 +270,13 @@ func c08Rows() []c08Row {
 				p.RR.Reports = rblocksN(t, 1)
 			}
 			i := rapid.IntRange(0, len(p.RR.Reports)-1).Draw(t, "blk")
-			far := rapid.SampledFrom([]int{1<<25 - 1, 1 << 25, 1<<24 + 1, math.MaxUint32}).Draw(t, "far")
+			far := farOf(1<<25-1, 1<<25, 1<<24+1, math.MaxUint32)
 			p.RR.Reports[i].Lost = uint32(pick(s, 1<<24-2, 1<<24-1, 1<<24, far))
 			return p
 		}},
 		{"REMB.ssrcs<=255", true, func(t *rapid.T, s string) m.Packet {
 			p := gen.PacketOf(t, m.KREMB)
-			n := pick(s, 254, 255, 256, rapid.SampledFrom([]int{257, 300, 511, 512, 65536}).Draw(t, "far"))
+			n := pick(s, 254, 255, 256, farOf(257, 300, 511, 512, 65536))
 			p.REMB.SSRCs = make([]uint32, n)
 			for i := range p.REMB.SSRCs {
 				p.REMB.SSRCs[i] = uint32(i) * 2654435761
@@ -278,7 +285,7 @@ func c08Rows() []c08Row {
 		}},
 		{"CCFB.metrics<=16384", true, func(t *rapid.T, s string) m.Packet {
 			p := m.Packet{Kind: m.KCCFB, CCFB: &m.CCFB{Sender: gen.U32(t, "sender"), Timestamp: gen.U32(t, "ts")}}
-			n := pick(s, 16383, 16384, 16385, 20000)
+			n := pick(s, 16383, 16384, 16385, farOf(20000, 32768, 65537, 65538))
 			b := m.CCFBBlock{SSRC: gen.U32(t, "ssrc"), BeginSeq: uint16(rapid.IntRange(0, 65535-n-1).Draw(t, "begin")), Metrics: make([]m.CCFBMetric, n)}
 			for i := range b.Metrics {
 				if i%3 != 0 {
@@ -290,7 +297,7 @@ func c08Rows() []c08Row {
 		}},
 		{"APP.name==4", true, func(t *rapid.T, s string) m.Packet {
 			p := gen.PacketOf(t, m.KAPP)
-			p.APP.Name = textN(t, pick(s, 4, 4, rapid.SampledFrom([]int{3, 5}).Draw(t, "n"), rapid.SampledFrom([]int{0, 1, 8, 300}).Draw(t, "nfar")))
+			p.APP.Name = textN(t, pick(s, 4, 4, rapid.SampledFrom([]int{3, 5}).Draw(t, "n"), farOf(0, 1, 8, 260, 300, 65540)))
 			return p
 		}},
 		{"REMB.bitrate>=0", true, func(t *rapid.T, s string) m.Packet {
@@ -308,7 +315,7 @@ func c08Rows() []c08Row {
 			return p
 		}},
 		{"TWCC.smalldelta in 0..255", true, func(t *rapid.T, s string) m.Packet {
-			return twccWithDelta(t, false, int64(pick(s, 254, 255, 256, rapid.SampledFrom([]int{-1, -256, 300, 70000}).Draw(t, "far"))))
+			return twccWithDelta(t, false, int64(pick(s, 254, 255, 256, farOf(-1, -256, 300, 70000))))
 		}},
 		{"TWCC.smalldelta>=0", true, func(t *rapid.T, s string) m.Packet {
 			return twccWithDelta(t, false, int64(pick(s, 1, 0, -1, -300)))
@@ -349,7 +356,7 @@ func c08Rows() []c08Row {
 		}},
 		{"NACK.pairs", false, func(t *rapid.T, s string) m.Packet {
 			p := gen.PacketOf(t, m.KNACK)
-			n := pick(s, 252, 253, 254, rapid.SampledFrom([]int{255, 256, 16383, 16384, 70000}).Draw(t, "far"))
+			n := pick(s, 252, 253, 254, farOf(255, 256, 16383, 16384, 70000))
 			p.NACK.Pairs = make([]m.NackPair, n)
 			for i := range p.NACK.Pairs {
 				p.NACK.Pairs[i] = m.NackPair{PID: uint16(i), BLP: uint16(i * 3)}
@@ -358,7 +365,7 @@ func c08Rows() []c08Row {
 		}},
 		{"SLI.entries", false, func(t *rapid.T, s string) m.Packet {
 			p := gen.PacketOf(t, m.KSLI)
-			n := pick(s, 252, 253, 254, rapid.SampledFrom([]int{255, 256, 16384, 70000}).Draw(t, "far"))
+			n := pick(s, 252, 253, 254, farOf(255, 256, 16384, 70000))
 			p.SLI.Entries = make([]m.SLIEntry, n)
 			for i := range p.SLI.Entries {
 				p.SLI.Entries[i] = m.SLIEntry{First: uint16(i & 0x1FFF), Number: 1, Picture: uint8(i & 63)}
@@ -594,6 +601,7 @@ func TestC08(t *testing.T) {
 			reps = 1 + per/12 // the slow rows
 		}
 		for k := 0; k < reps; k++ {
+			c08Rep = k
 			g := rapid.Custom(func(rt *rapid.T) m.Packet {
 				_ = rapid.Bool().Draw(rt, "_")
 				return row.Build(rt, side)
